@@ -40,7 +40,7 @@ _ASSUME_B = [
 PROPS = {
     "C05": dict(
         test="TestC05", engine="B", level="exploration", components="compile", nondeterminism_is_violation=True,
-        quick_checks=600, thorough_checks=20000, thorough_timeout=7200,
+        quick_checks=1500, thorough_checks=20000, thorough_timeout=7200,
         rule="a case = generated import DAG workload (2-8 files, messages/enums/extensions/custom options, optional injected defects) "
              "x 1-2 Compile calls (MaxParallelism in {1,2,3,4,16}, permuted/duplicated request order, nil or fresh Symbols) "
              "x scheduler tape/disabled-hook set/starved victim; distinct = distinct (workload, runs, trace hash); "
@@ -49,7 +49,7 @@ PROPS = {
     ),
     "C06": dict(
         test="TestC06", engine="B", level="exploration", components="compile",
-        quick_checks=800, thorough_checks=40000, thorough_timeout=7200,
+        quick_checks=5000, thorough_checks=40000, thorough_timeout=7200,
         rule="a case = random import digraph on 1-6 files (self-imports, cycles of any length, diamonds, imports of missing files; "
              "files contain only imports and one empty message) x non-empty requested subset in random order x MaxParallelism 1-4 x "
              "default or never-aborting reporter x scheduler tape/disabled hooks/starved victim; distinct = distinct (graph, request, "
@@ -59,7 +59,7 @@ PROPS = {
     ),
     "C07": dict(
         test="TestC07", engine="B", level="fault_enumeration", components="compile",
-        quick_checks=600, thorough_checks=30000, thorough_timeout=7200,
+        quick_checks=2500, thorough_checks=30000, thorough_timeout=7200,
         rule="a case = valid generated workload (2-7 files) x request x MaxParallelism in {1,2,4} x fault plan of 0-3 faults over "
              "(file, resolver-call ordinal): resolver error / resolver panic / read error at byte k / read panic at byte k / benign "
              "delivery shapes (short reads, (0,nil) reads, (n,EOF), Close error) / context cancellation at decision k (incl. before "
@@ -70,8 +70,8 @@ PROPS = {
     ),
     "C08": dict(
         level="exploration", components="compile",
-        parts=[dict(test="TestC08", engine="B", quick_checks=600, thorough_checks=30000),
-               dict(test="TestC08R", engine="R", quick_checks=2000, thorough_checks=60000)],
+        parts=[dict(test="TestC08", engine="B", quick_checks=1500, thorough_checks=30000),
+               dict(test="TestC08R", engine="R", quick_checks=5000, thorough_checks=60000)],
         thorough_timeout=7200,
         rule="a case = generated multi-file workload carrying 0-12 independent reportable errors (unresolvable types, duplicate field "
              "numbers, bad defaults, symbol/extension collisions, cycles, syntax errors) and unused-import warnings x reporter policy "
@@ -100,7 +100,7 @@ PROPS = {
     ),
     "C33": dict(
         test="TestC33", engine="B", level="exploration", components="incremental",
-        quick_checks=1500, thorough_checks=60000, thorough_timeout=7200,
+        quick_checks=10000, thorough_checks=60000, thorough_timeout=7200,
         rule="a case = random DAG on 2-7 integer-keyed queries (each resolves its dependencies in generated groups of sequential/parallel "
              "Resolve calls and hashes key, versioned input and dependency values) x 1-3 concurrent clients each issuing 1-4 operations "
              "from {Run(roots), Evict(keys), EvictWithCleanup(keys, bump their inputs)} x parallelism 1-4 x scheduler tape/disabled "
@@ -110,7 +110,7 @@ PROPS = {
     ),
     "C34": dict(
         test="TestC34", engine="B", level="fault_enumeration", components="incremental",
-        quick_checks=1500, thorough_checks=60000, thorough_timeout=7200,
+        quick_checks=10000, thorough_checks=60000, thorough_timeout=7200,
         rule="a case = random digraph on 2-6 queries (cycles and self-loops allowed; queries propagate a dependency's fatal error) x "
              "set of 0-2 queries that panic once (faults then stop) x parallelism 1-4 x history (one client: Run(roots1) then "
              "Run(roots2 + everything that panicked); or two concurrent clients with one Run each) x scheduler tape/disabled hooks; "
@@ -120,7 +120,7 @@ PROPS = {
     "C35": dict(
         test="TestC35", engine="B", level="exploration", components="experimental", nondeterminism_is_violation=True,
         selftest_may_diverge="the outcome of cases whose workspace has an import cycle is itself nondeterministic in the code under test (known finding C36/diagnostics-differ-with-import-cycle), so such a case may stop after a different number of runs; the schedule of each individual run is reproducible",
-        quick_checks=400, thorough_checks=6000, thorough_timeout=10800,
+        quick_checks=600, thorough_checks=6000, thorough_timeout=10800,
         rule="a case = generated workspace (2-6 proto files, optionally with defects) x workspace roots x edit history of 1-5 steps from "
              "{add a type, change a field type, rename a message, add an import (maybe unused/cyclic/missing), drop an import, break/"
              "repair syntax, add a file, delete a file, re-add a deleted file, toggle a transient open error, touch} each followed by "
@@ -142,7 +142,7 @@ PROPS = {
     ),
     "C17": dict(
         test="TestC17", engine="B", level="exploration", components="symbols",
-        quick_checks=4000, thorough_checks=150000, thorough_timeout=7200,
+        quick_checks=20000, thorough_checks=150000, thorough_timeout=7200,
         rule="a case = history of 2-12 operations from {Import(file), Lookup(name), LookupExtension(message, number)} over a fixed pool of 15 "
              "small files x 2 representations (linker result with source, plain protodesc descriptor) that overlap in names, package-vs-"
              "symbol names and extension numbers on a shared extendee; after every Import the answers of Lookup/LookupExtension over the "
@@ -153,8 +153,8 @@ PROPS = {
     ),
     "C16": dict(
         level="exploration", components="symbols",
-        parts=[dict(test="TestC16R", engine="R", quick_checks=1500, thorough_checks=60000),
-               dict(test="TestC16B", engine="B", quick_checks=500, thorough_checks=20000)],
+        parts=[dict(test="TestC16R", engine="R", quick_checks=4000, thorough_checks=60000),
+               dict(test="TestC16B", engine="B", quick_checks=1000, thorough_checks=20000)],
         thorough_timeout=7200,
         rule="part R: a case = 2-4 worker goroutines x 1-5 operations each from {Import(file) via linker-result and protodesc paths, Lookup, "
              "LookupExtension, AddExtension, AddExtensionDeclaration} on one shared linker.Symbols over a pool of 15 colliding files x 2 "
@@ -169,7 +169,7 @@ PROPS = {
     ),
     "C38": dict(
         test="TestC38", engine="R", level="exploration", components="intern",
-        quick_checks=1500, thorough_checks=60000, thorough_timeout=7200,
+        quick_checks=5000, thorough_checks=60000, thorough_timeout=7200,
         rule="a case = 2-4 worker goroutines x 2-8 operations each from {Intern, InternBytes followed by overwriting the caller's buffer, "
              "Query, Value(id obtained earlier)} over a per-case palette of 2-6 strings (inline-encodable and stored ones, incl. trailing "
              "'.', 6 characters, non-char6 characters), with yield points before every atomic step of internSlow, Query, Log.Append and "
